@@ -1,12 +1,13 @@
 #!/bin/sh
-# Runs every seeded fault (both rounds) against the quick check of the property it targets, on a scratch clone of /repo.
+# Runs every seeded fault (all rounds) against the quick check of the property it targets, on a scratch clone of /repo.
 # Evidence and replays are redirected, /repo and /verif/evidence are never touched.  Results: /verif/seeded/RESULTS.tsv
 R=/tmp/seed/repo_all; rm -rf $R; git clone -q /repo $R
 export VERIF_EVIDENCE_DIR=/tmp/seed/ev_all VERIF_REPLAY_DIR=/tmp/seed/rp_all VERIF_REPO=$R
 mkdir -p $VERIF_EVIDENCE_DIR $VERIF_REPLAY_DIR
 cd /verif
 OUT=/tmp/seed/RESULTS.new; : > $OUT
-for d in seeded/C*-m* seeded/C*-r2m*; do
+for d in seeded/C*-m* seeded/C*-r2m* seeded/C*-r3m* seeded/C*-r4m*; do
+  [ -d $d ] || continue
   s=$(basename $d); id=${s%%-*}
   git -C $R reset -q --hard HEAD
   git -C $R apply /verif/$d/patch.diff || { echo "$s	$id	APPLY-FAILED" >> $OUT; continue; }
